@@ -18,6 +18,13 @@
 //	mapArgsExternal every call that hands a map-typed argument to a function outside the scanned packages (which could
 //	                iterate it: maps.Keys, reflect, fmt, SDK constructors …)
 //
+//	packageVars          number of package-level `var`s declared in the scanned files
+//	mutablePackageState  every write, from a NON-init function of the scanned code, to a package-level variable of a
+//	                     scanned package: plain / op= assignment, field or element write, ++/--, delete(), taking its
+//	                     address, calling a pointer-receiver method of a comdex-defined or sync/atomic type on it.
+//	                     State of this kind lives outside the stores and outlives an application instance: results then
+//	                     depend on what the PROCESS did before, not only on the blocks. (file, function, "pkg.Var:kind")
+//
 // Shape vocabulary of a map-range body (joined by "+", in this fixed order):
 //
 //	mapwrite[:self|:other]   assigns m2[key] = …  (aggregates into a map; `self` = the map being ranged)
@@ -680,6 +687,140 @@ func main() {
 			})
 		}
 	}
+	// package-level mutable state
+	var pkgState []use
+	nPkgVars := 0
+	isPkgVar := func(obj types.Object) bool {
+		v, ok := obj.(*types.Var)
+		if !ok || v.Pkg() == nil || v.IsField() {
+			return false
+		}
+		return v.Parent() == v.Pkg().Scope() && scannedPkg[v.Pkg().Path()]
+	}
+	for _, x := range files {
+		info := x.p.TypesInfo
+		short := func(obj types.Object) string {
+			pp := strings.TrimPrefix(obj.Pkg().Path(), "github.com/comdex-official/comdex/")
+			return pp + "." + obj.Name()
+		}
+		rootVar := func(e ast.Expr) (types.Object, string) {
+			kind := "assign"
+			for {
+				switch y := e.(type) {
+				case *ast.Ident:
+					if obj := info.Uses[y]; obj != nil && isPkgVar(obj) {
+						return obj, kind
+					}
+					return nil, ""
+				case *ast.SelectorExpr:
+					// pkg.Var (qualified identifier) or value.field
+					if id, ok := y.X.(*ast.Ident); ok {
+						if _, isPkg := info.Uses[id].(*types.PkgName); isPkg {
+							if obj := info.Uses[y.Sel]; obj != nil && isPkgVar(obj) {
+								return obj, kind
+							}
+							return nil, ""
+						}
+					}
+					kind = "field"
+					e = y.X
+				case *ast.IndexExpr:
+					kind = "elem"
+					e = y.X
+				case *ast.StarExpr:
+					kind = "deref"
+					e = y.X
+				case *ast.ParenExpr:
+					e = y.X
+				default:
+					return nil, ""
+				}
+			}
+		}
+		scan := func(fname string, body ast.Node) {
+			pos := func(n ast.Node) int { return fset.Position(n.Pos()).Line }
+			ast.Inspect(body, func(n ast.Node) bool {
+				switch s := n.(type) {
+				case *ast.AssignStmt:
+					if s.Tok == token.DEFINE {
+						return true
+					}
+					for _, lhs := range s.Lhs {
+						if obj, kind := rootVar(lhs); obj != nil {
+							if s.Tok != token.ASSIGN {
+								kind = "op" + kind
+							}
+							pkgState = append(pkgState, use{x.fn, fname, short(obj) + ":" + kind, pos(s)})
+						}
+					}
+				case *ast.IncDecStmt:
+					if obj, _ := rootVar(s.X); obj != nil {
+						pkgState = append(pkgState, use{x.fn, fname, short(obj) + ":incdec", pos(s)})
+					}
+				case *ast.UnaryExpr:
+					if s.Op == token.AND {
+						if obj, _ := rootVar(s.X); obj != nil {
+							pkgState = append(pkgState, use{x.fn, fname, short(obj) + ":addr", pos(s)})
+						}
+					}
+				case *ast.CallExpr:
+					if id, ok := s.Fun.(*ast.Ident); ok && id.Name == "delete" && len(s.Args) == 2 {
+						if obj, _ := rootVar(s.Args[0]); obj != nil {
+							pkgState = append(pkgState, use{x.fn, fname, short(obj) + ":delete", pos(s)})
+						}
+					}
+					if sel, ok := s.Fun.(*ast.SelectorExpr); ok {
+						if selInfo, ok := info.Selections[sel]; ok && selInfo.Kind() == types.MethodVal {
+							if fn, ok := selInfo.Obj().(*types.Func); ok {
+								sig := fn.Type().(*types.Signature)
+								if sig.Recv() != nil {
+									if _, isPtr := sig.Recv().Type().(*types.Pointer); isPtr {
+										if obj, _ := rootVar(sel.X); obj != nil {
+											// only types whose methods we can see / that are mutable by design
+											t := sig.Recv().Type().(*types.Pointer).Elem()
+											if nt, ok := t.(*types.Named); ok && nt.Obj().Pkg() != nil {
+												tp := nt.Obj().Pkg().Path()
+												if scannedPkg[tp] || tp == "sync" || tp == "sync/atomic" || tp == "container/list" || tp == "bytes" || tp == "strings" {
+													pkgState = append(pkgState, use{x.fn, fname, short(obj) + ":ptrmethod." + fn.Name(), pos(s)})
+												}
+											}
+										}
+									}
+								}
+							}
+						}
+					}
+				}
+				return true
+			})
+		}
+		for _, d := range x.f.Decls {
+			switch dd := d.(type) {
+			case *ast.FuncDecl:
+				if dd.Body == nil || (dd.Recv == nil && dd.Name.Name == "init") {
+					continue
+				}
+				scan(funcName(dd), dd.Body)
+			case *ast.GenDecl:
+				if dd.Tok == token.VAR {
+					for _, sp := range dd.Specs {
+						if vs, ok := sp.(*ast.ValueSpec); ok {
+							nPkgVars += len(vs.Names)
+						}
+					}
+				}
+				// function literals stored in package-level variables run later, not at init
+				ast.Inspect(dd, func(n ast.Node) bool {
+					if fl, ok := n.(*ast.FuncLit); ok {
+						scan("<func literal in package-level declaration>", fl.Body)
+						return false
+					}
+					return true
+				})
+			}
+		}
+	}
+
 	// second pass: taint closure — every scanned function that (transitively) calls a scanned function using
 	// math/rand, crypto/rand or the wall clock
 	for changed := true; changed; {
@@ -754,6 +895,8 @@ func main() {
 	emit("unsafeUses", unsafes)
 	emit("chanOps", chans)
 	emit("mapArgsExternal", mapArgs)
+	fmt.Fprintf(&b, "def packageVars : Nat := %d\n\n", nPkgVars)
+	emit("mutablePackageState", pkgState)
 	// deduplicated (top-level directory, callee) pairs of mapArgsExternal: what the obligation is stated over
 	{
 		seen := map[string]bool{}
